@@ -571,7 +571,7 @@ pub fn family(name: &str, param: usize, ws: &Ws) -> Doc {
         "nest-mix" => {
             let mut t = Tree::Leaf(one);
             for d in 0..param {
-                t = if d % 2 == 0 { Tree::Arr(vec![Tree::Leaf(d % nleaves), t, Tree::Arr(vec![])]) } else { Tree::Obj(vec![(d % nkeys, Tree::Leaf(d % nleaves)), ((d / 2) % nkeys, t)]) };
+                t = if d % 2 == 0 { Tree::Arr(vec![Tree::Leaf(d % nleaves), t, Tree::Arr(vec![])]) } else { Tree::Obj(vec![(d % nkeys, Tree::Leaf(d % nleaves)), ((d % nkeys + 1) % nkeys, t)]) };
             }
             t
         }
